@@ -3,6 +3,7 @@ package main
 import (
 	"fmt"
 	"go/ast"
+	"go/token"
 	"go/types"
 	"sort"
 	"strings"
@@ -114,9 +115,9 @@ func ruleTupleCanonicalised(p *Program, r *Report) {
 	r.Begin("R02b", "tuples whose name set changed are re-canonicalised: a function that allocates a *GenericTuple around a map obtained by adding or removing a name (frozen Map.With / Without / Merge / Update on another tuple's map) must return through Canonical / NewTuple / TupleBuilder.Finish — otherwise a two-attribute (@, @char|@item|@byte|@value) tuple stays generic and is not equal to its sugared form", 2)
 	defer r.End()
 	exempt := map[string]string{
-		"newGenericTuple":      "documented raw intermediate, callers canonicalise",
-		"(*GenericTuple).Map":  "names unchanged",
-		"valuesToTuple":        "heading re-sugared by Relation.Join / row tuples never have sugar headings of size 2 except via Join's branch",
+		"newGenericTuple":     "documented raw intermediate, callers canonicalise",
+		"(*GenericTuple).Map": "names unchanged",
+		"valuesToTuple":       "heading re-sugared by Relation.Join / row tuples never have sugar headings of size 2 except via Join's branch",
 	}
 	n := 0
 	for _, fn := range p.RepoFns {
@@ -290,4 +291,128 @@ func ruleLayoutIndependentHash(p *Program, r *Report) {
 	if n == 0 {
 		r.OK("rows-hash", "the positional row digest is not used", ph.Pos())
 	}
+}
+
+// R02f: derived fields of slot builders count distinct slots.  A sequence value carries a field derived from its
+// store (Array.count = non-nil slots, String.holes = negative slots) that Equal and Count read.  A function that
+// fills a freshly made slot table by computed index (the set builders' asArray / asString) may be handed the same
+// (@, x) pair twice, so the derived field must come from a counter that is incremented only when the slot was
+// still empty — not from the number of inputs.
+func ruleDerivedCountDistinctSlots(p *Program, r *Report) {
+	r.Begin("R02f", "derived counts of slot builders: in every function of package rel that returns a sequence value around a freshly made slot table filled by computed index, the derived field (Array.count, String.holes) depends on a counter incremented under a test of the slot's previous content — a count taken from the number of inputs gives a second, unequal representation of the same value when an input is repeated", 2)
+	defer r.End()
+	relPkg := p.Pkg("rel")
+	derived := map[string]string{"rel.Array": "count", "rel.String": "holes"}
+	store := map[string]string{"rel.Array": "values", "rel.String": "s"}
+	n := 0
+	for _, fn := range p.RepoFns {
+		if fn.Pkg != relPkg || fn.Parent() != nil {
+			continue
+		}
+		// composite literals of the sequence types: group field stores by the allocated struct
+		type lit struct {
+			tname         string
+			derivedV, stV ssa.Value
+			pos           token.Pos
+		}
+		lits := map[ssa.Value]*lit{}
+		ForEachInstr(fn, func(ins ssa.Instruction) {
+			st, ok := ins.(*ssa.Store)
+			if !ok {
+				return
+			}
+			fa, ok := st.Addr.(*ssa.FieldAddr)
+			if !ok {
+				return
+			}
+			tn := TypeName(Deref(fa.X.Type()))
+			d, ok := derived[tn]
+			if !ok {
+				return
+			}
+			sto := structOf(fa.X.Type())
+			if sto == nil {
+				return
+			}
+			l := lits[fa.X]
+			if l == nil {
+				l = &lit{tname: tn}
+				lits[fa.X] = l
+			}
+			switch sto.Field(fa.Field).Name() {
+			case d:
+				l.derivedV, l.pos = st.Val, st.Pos()
+			case store[tn]:
+				l.stV = st.Val
+			}
+		})
+		for _, l := range lits {
+			if l.derivedV == nil || l.stV == nil {
+				continue
+			}
+			// the store is a slot table made here and filled by computed index
+			var table *ssa.MakeSlice
+			DependsOn(l.stV, func(x ssa.Value) bool {
+				if mk, ok := x.(*ssa.MakeSlice); ok && table == nil {
+					table = mk
+				}
+				return false
+			})
+			if table == nil {
+				continue
+			}
+			filled := false
+			ForEachInstr(fn, func(ins ssa.Instruction) {
+				if st, ok := ins.(*ssa.Store); ok {
+					if ia, ok := st.Addr.(*ssa.IndexAddr); ok && ia.X == ssa.Value(table) {
+						if _, isConst := ia.Index.(*ssa.Const); !isConst {
+							if _, isNeg := st.Val.(*ssa.Const); !isNeg { // initialising the table with the hole marker is not filling it
+								filled = true
+							}
+						}
+					}
+				}
+			})
+			if !filled {
+				continue
+			}
+			n++
+			r.Fn(FnName(fn))
+			pd := NewPostDom(fn)
+			guardedCounter := DependsOn(l.derivedV, func(x ssa.Value) bool {
+				// an increment/decrement by a constant …
+				bo, ok := x.(*ssa.BinOp)
+				if !ok || (bo.Op != token.ADD && bo.Op != token.SUB) {
+					return false
+				}
+				if _, isConst := bo.Y.(*ssa.Const); !isConst {
+					return false
+				}
+				// … executed only under a test of the slot's previous content
+				for _, d := range pd.TransitiveControlDeps(bo.Block()) {
+					cond := IfCond(d.Br)
+					if cond != nil && DependsOn(cond, func(y ssa.Value) bool {
+						ld, ok := y.(*ssa.UnOp)
+						if !ok {
+							return false
+						}
+						ia, ok := ld.X.(*ssa.IndexAddr)
+						return ok && ia.X == ssa.Value(table)
+					}) {
+						return true
+					}
+				}
+				return false
+			})
+			r.Check(guardedCounter, "distinct-slots@"+FnName(fn), "the derived field comes from a counter guarded by the slot's previous content", fmt.Sprintf("%s fills a fresh slot table by index and derives %s.%s from something other than the number of distinct slots it filled (e.g. the number of inputs): when the same (@, x) pair is supplied twice the value gets a wrong count and is no longer equal to, nor collapses with, the same sequence built any other way", FnName(fn), l.tname, derived[l.tname]), l.pos)
+		}
+	}
+	if n < 2 {
+		r.Undecided("sites", fmt.Sprintf("only %d slot builders with a derived field found (asArray, asString confirmed)", n), 0)
+	}
+}
+
+func init() {
+	register("C02", Rule{"R02f", ruleDerivedCountDistinctSlots})
+	register("C01", Rule{"R02f", ruleDerivedCountDistinctSlots})
 }
